@@ -11,6 +11,7 @@ def mine(key):
 
 def run(ctx):
     yield tcb_forged_part(ctx, mine, name='tcb-transition-relation')
+    yield tcb_forged_part(ctx, mine, name='tcb-closed-system-close', closed=('close',))
 
 
 MANIFEST = {
@@ -19,7 +20,8 @@ MANIFEST = {
     'level_text': 'Every feasible path of segment_arrives from each of the nine states (reached through the real API, symbolic ISNs) on a fully symbolic segment is '
                   'checked against an edge table transcribed from RFC 9293 figure 5 / section 3.10.7: the post-state must be reachable from the pre-state along '
                   'edges whose required control flags were present in the processed segments, and the TCB may be deleted only by RST or by the ACK of our FIN in LAST-ACK.',
-    'level_note': 'Transition relation only (one symbolic segment per history). The closed-system obligations of the statement (sequence-number agreement when both '
-                  'sides are synchronised, data-before-FIN, release by final ACK / 2*MSL) are decided by the two-endpoint part when present in the evidence. Trusts '
-                  'mirx, its std models and z3; violations are replayed natively before being reported.',
+    'level_note': 'Part 1: transition relation, one symbolic segment per history. Part 2: two real TCBs on a faulty network (fault budget 1/2): closes by A first, B first or '
+                  'both, with data in flight or still queued; obligations: RCV.NXT of each synchronised side lies in [peer SND.UNA, peer SND.NXT], all data submitted before a '
+                  'close is delivered before the peer state shows the FIN, both TCBs are released (final ACK in LAST-ACK or 2*MSL) within the round bound, never by reset. '
+                  'Known finding: close() strands data still queued in outgoing.text. Trusts mirx, its std models and z3; violations are replayed natively.',
 }
